@@ -21,6 +21,11 @@ ExpAll == -300..300
 ExpStep == { -300 + 25 * i : i \in 0..24 } \cup {-5, -4, -1, 0, 1, 2, 3, 4, 5, 6, 15, 16, 17, 22, 23, 99, 100, -100, -99, 299, 300, -299}
 ExpUnc == {-300, -5, 0, 3, 15, 100}
 ExpUncT == {-300, -100, -10, -5, -1, 0, 3, 9, 15, 100, 300}
+SigConv == { <<3, 1, 5>>, <<9, 9, 9, 6>>, <<3, 1, 4, 1, 6>> }
+USigConv == { <<2, 9>>, <<1, 7, 9>> }
+ExpConv == {-3, 0, 2}
+ConvAll == ConvTable
+ConvTwo == { CV("km", "m", 3), CV("1/M/s", "m3/mol/s", -3) }
 Both == {FALSE, TRUE}
 Pos == {FALSE}
 =============================================================================
